@@ -802,6 +802,12 @@ def run(ctx):
                         replay_text(c, r, "not reproduced in isolation"), found_input=True, sig=sig)
             continue
         c, r = s["case"], s["res"]
+        if (sig or "").startswith("wedge") and re.search(rb'"(cat|sort)[^"]*"\s*\|\|\s*get[b]?line', c["src"]):
+            # reading from a two-way pipe to a command that answers only after its input has ended blocks in read(2) by
+            # construction (any awk does); the generator avoids it (RWCMDS) but byte/token mutation can produce it
+            ctx.coverage.setdefault("blocking_by_construction", []).append(dict(sig=sig, src=c["src"][:200].decode(errors="replace")))
+            ctx.log("not reported: %s on a read from a two-way pipe to cat/sort (blocks by construction)" % sig)
+            continue
         ctx.problem("impl", "[%s] %d program(s); minimal: %r traits=%s input=%r -> %s" % (
             sig, len(viol[sig]), c["src"][:300].decode(errors="replace"), c["traits"], c["inp"][:40], describe(r)),
             replay_text(c, r, "signature %s" % sig), found_input=True, sig=sig)
